@@ -295,6 +295,7 @@ pub struct Stats {
     pub max_blocked_threads: u64,
     pub dup_checks: u64,
     pub order_checks_tiny: u64,
+    pub big_roundtrips: u64,
     pub dup_pos: u64,
 }
 
